@@ -65,12 +65,22 @@ WILD_LISTS = ('<xs:schema xmlns:xs="http://www.w3.org/2001/XMLSchema" targetName
               '<xs:element name="open" type="t:Open"/><xs:element name="wide" type="t:Wide"/></xs:schema>')
 
 
+SUBST_NAMES = ('<xs:schema xmlns:xs="http://www.w3.org/2001/XMLSchema" targetNamespace="urn:s" xmlns:t="urn:s" elementFormDefault="qualified">'
+               '<xs:import namespace="http://www.w3.org/XML/1998/namespace"/>'
+               '<xs:complexType name="ItemClass"><xs:sequence><xs:element name="v" type="xs:string"/></xs:sequence><xs:attribute ref="xml:lang"/></xs:complexType>'
+               '<xs:complexType name="Holder"><xs:sequence><xs:element name="item" type="t:ItemClass" maxOccurs="unbounded"/></xs:sequence></xs:complexType>'
+               '<xs:element name="holder" type="t:Holder"/></xs:schema>')
+
+
 def source_sets():
     sets = []
 
     def fx(*parts):
         return str(FIX.joinpath(*parts))
 
+    # names the DEFAULT substitutions of `xsdata init-config` would rewrite (class names ending in Class, the xml
+    # namespace as a package): only a configuration that asks for them may apply them, whatever the route
+    sets.append(("subst-names", {"s.xsd": SUBST_NAMES}, ["s.xsd"]))
     sets.append(("primer", {"order.xsd": fx("primer", "order.xsd")}, ["order.xsd"]))
     sets.append(("books", {"books.xsd": fx("books", "books.xsd")}, ["books.xsd"]))
     sets.append(("compound", {"compound.xsd": fx("compound", "compound.xsd")}, ["compound.xsd"]))
@@ -284,6 +294,9 @@ def cli_routes(ctx, work, sets):
                         txt = re.sub(r"<CompoundFields([^>]*)>false</CompoundFields>", r"<CompoundFields\1>true</CompoundFields>", txt)
                     if "docstring" in cfg_edit:
                         txt = re.sub(r"<DocstringStyle>[^<]*</DocstringStyle>", f"<DocstringStyle>{cfg_edit['docstring']}</DocstringStyle>", txt)
+                    # the file written by init-config also carries DEFAULT substitutions (e.g. class names ending in
+                    # Class -> Type) that plain flags do not: "the same configuration" means without them
+                    txt = re.sub(r"<Substitutions>.*?</Substitutions>", "<Substitutions/>", txt, flags=re.S)
                     Path(d, "cfg.xml").write_text(txt)
                     cmd += ["--config", "cfg.xml"]
                 cmd += ["src/" + main[0] if len(main) == 1 else "src"]
